@@ -268,10 +268,183 @@ proof fn lemma_below_loc(k: Location, loc: Location)
     if f != loc { ax_trans(k, f, loc); }
     ax_anc(k, loc);
 }
+
+// ------------------------------------------------------------------ lookup by address (search_queued)
+#[derive(Copy, Clone)]
+pub struct Address { pub id: u64, pub max_cut: MaxCut }
+/// the location of the command with this address, if the storage holds it
+pub uninterp spec fn target(a: Address) -> Option<Location>;
+pub proof fn ax_target(a: Address)
+    ensures target(a) is Some ==> valid(target(a)->Some_0) && target(a)->Some_0.max_cut == a.max_cut
+{ admit(); }
+impl Segment {
+    /// Segment::get_by_address: finds the command iff this segment holds it
+    #[verifier::external_body]
+    pub fn get_by_address(&self, a: Address) -> (r: Option<Location>)
+        ensures r is Some <==> (target(a) is Some && target(a)->Some_0.segment == self.idx),
+            r is Some ==> r == target(a),
+    { unimplemented!() }
+}
+/// l is an ancestor-or-self of one of the seeds
+pub open spec fn from_seeds(l: Location, seeds: Map<SegmentIndex, MaxCut>) -> bool {
+    exists|s: SegmentIndex| #[trigger] seeds.contains_key(s) && anc_eq(l, Location { max_cut: seeds[s], segment: s })
+}
+pub open spec fn qs_sound(q: Map<SegmentIndex, MaxCut>, mc: MaxCut, seeds: Map<SegmentIndex, MaxCut>) -> bool {
+    forall|s: SegmentIndex| #[trigger] q.contains_key(s) ==> {
+        let l = Location { max_cut: q[s], segment: s };
+        valid(l) && from_seeds(l, seeds) && l.max_cut >= mc
+    }
+}
+proof fn lemma_from_seeds_down(k: Location, l: Location, seeds: Map<SegmentIndex, MaxCut>)
+    requires anc_eq(k, l), from_seeds(l, seeds) ensures from_seeds(k, seeds)
+{
+    let s = choose|s: SegmentIndex| #[trigger] seeds.contains_key(s) && anc_eq(l, Location { max_cut: seeds[s], segment: s });
+    lemma_anc_eq_trans(k, l, Location { max_cut: seeds[s], segment: s });
+}
+proof fn lemma_push_s(q0: Map<SegmentIndex, MaxCut>, x: Location, t: Location, mc: MaxCut, seeds: Map<SegmentIndex, MaxCut>, bound: Location)
+    requires qs_sound(q0, mc, seeds), valid(x), from_seeds(x, seeds), x.max_cut >= mc,
+    ensures
+        qs_sound(pushed(q0, x), mc, seeds),
+        (q_witness(q0, t) || anc_eq(t, x)) ==> q_witness(pushed(q0, x), t),
+        q_below(q0, bound) && loc_lt(x, bound) ==> q_below(pushed(q0, x), bound),
+{
+    let q1 = pushed(q0, x);
+    let e = Location { max_cut: q1[x.segment], segment: x.segment };
+    assert(q1.contains_key(x.segment));
+    if q0.contains_key(x.segment) && q0[x.segment] > x.max_cut {
+        let o = Location { max_cut: q0[x.segment], segment: x.segment };
+        assert(e == o);
+        ax_in_segment(x, o);
+    } else {
+        assert(e == x);
+    }
+    assert(anc_eq(x, e));
+    assert forall|s: SegmentIndex| #[trigger] q1.contains_key(s) implies ({
+        let l = Location { max_cut: q1[s], segment: s };
+        valid(l) && from_seeds(l, seeds) && l.max_cut >= mc
+    }) by {
+        if s != x.segment { assert(q0.contains_key(s)); }
+        else if q0.contains_key(x.segment) && q0[x.segment] > x.max_cut { assert(q0.contains_key(s)); }
+    }
+    if q_witness(q0, t) || anc_eq(t, x) {
+        if anc_eq(t, x) {
+            lemma_anc_eq_trans(t, x, e);
+        } else {
+            let s0 = choose|s: SegmentIndex| #[trigger] q0.contains_key(s) && anc_eq(t, Location { max_cut: q0[s], segment: s });
+            let w = Location { max_cut: q0[s0], segment: s0 };
+            if s0 != x.segment {
+                assert(q1.contains_key(s0) && q1[s0] == q0[s0]);
+            } else {
+                assert(q0.contains_key(x.segment));
+                if q0[x.segment] > x.max_cut { assert(e == w); }
+                else {
+                    if w != x { ax_in_segment(w, x); }
+                    lemma_anc_eq_trans(t, w, x);
+                }
+                assert(anc_eq(t, e));
+            }
+        }
+    }
+    if q_below(q0, bound) && loc_lt(x, bound) {
+        assert forall|s: SegmentIndex| #[trigger] q1.contains_key(s) implies loc_lt(Location { max_cut: q1[s], segment: s }, bound) by {
+            if s != x.segment { assert(q0.contains_key(s)); }
+            else if q0.contains_key(x.segment) && q0[x.segment] > x.max_cut { assert(q0.contains_key(s)); }
+        }
+    }
+}
+
+// ------------------------------------------------------------------ lookup from the committed heads (get_location / get_location_from)
+#[derive(Copy, Clone)]
+pub struct LocatedAddress { pub id: u64, pub segment: SegmentIndex, pub max_cut: MaxCut }
+pub struct HeadSet { pub heads: Vec<LocatedAddress> }
+/// the committed head set of the storage (the graph is everything reachable from it)
+pub uninterp spec fn storage_heads() -> Seq<Location>;
+pub proof fn ax_heads(i: int) requires 0 <= i < storage_heads().len() ensures valid(storage_heads()[i]) { admit(); }
+pub open spec fn head_loc(h: LocatedAddress) -> Location { Location { segment: h.segment, max_cut: h.max_cut } }
+/// l is in the committed graph: an ancestor-or-self of a committed head
+pub open spec fn in_graph(l: Location) -> bool {
+    exists|i: int| 0 <= i < storage_heads().len() && anc_eq(l, #[trigger] storage_heads()[i])
+}
+impl Storage {
+    #[verifier::external_body]
+    pub fn get_heads(&self) -> (r: Result<&HeadSet, StorageError>)
+        ensures r is Ok, r->Ok_0.heads@.len() == storage_heads().len(),
+            forall|i: int| 0 <= i < storage_heads().len() ==> head_loc(#[trigger] r->Ok_0.heads@[i]) == storage_heads()[i],
+    { unimplemented!() }
+}
+/// R14 helper: the heads a HeadSet iterates over, in order
+fn head_vec(h: &HeadSet) -> (r: &Vec<LocatedAddress>) ensures r@ == h.heads@ { &h.heads }
+/// queue entries all come from the graph, at or above the target's max cut
+pub open spec fn qg_sound(q: Map<SegmentIndex, MaxCut>, mc: MaxCut) -> bool {
+    forall|s: SegmentIndex| #[trigger] q.contains_key(s) ==> {
+        let l = Location { max_cut: q[s], segment: s };
+        valid(l) && in_graph(l) && l.max_cut >= mc
+    }
+}
+proof fn lemma_push_g(q0: Map<SegmentIndex, MaxCut>, x: Location, mc: MaxCut)
+    requires qg_sound(q0, mc), valid(x), in_graph(x), x.max_cut >= mc,
+    ensures
+        qg_sound(pushed(q0, x), mc),
+        forall|t: Location| (q_witness(q0, t) || anc_eq(t, x)) ==> #[trigger] q_witness(pushed(q0, x), t),
+{
+    let q1 = pushed(q0, x);
+    let e = Location { max_cut: q1[x.segment], segment: x.segment };
+    assert(q1.contains_key(x.segment));
+    if q0.contains_key(x.segment) && q0[x.segment] > x.max_cut {
+        let o = Location { max_cut: q0[x.segment], segment: x.segment };
+        assert(e == o);
+        ax_in_segment(x, o);
+    } else {
+        assert(e == x);
+    }
+    assert(anc_eq(x, e));
+    assert forall|s: SegmentIndex| #[trigger] q1.contains_key(s) implies ({
+        let l = Location { max_cut: q1[s], segment: s };
+        valid(l) && in_graph(l) && l.max_cut >= mc
+    }) by {
+        if s != x.segment { assert(q0.contains_key(s)); }
+        else if q0.contains_key(x.segment) && q0[x.segment] > x.max_cut { assert(q0.contains_key(s)); }
+    }
+    assert forall|t: Location| (q_witness(q0, t) || anc_eq(t, x)) implies #[trigger] q_witness(q1, t) by {
+        if anc_eq(t, x) {
+            lemma_anc_eq_trans(t, x, e);
+        } else {
+            let s0 = choose|s: SegmentIndex| #[trigger] q0.contains_key(s) && anc_eq(t, Location { max_cut: q0[s], segment: s });
+            let w = Location { max_cut: q0[s0], segment: s0 };
+            if s0 != x.segment {
+                assert(q1.contains_key(s0) && q1[s0] == q0[s0]);
+            } else {
+                assert(q0.contains_key(x.segment));
+                if q0[x.segment] > x.max_cut { assert(e == w); }
+                else {
+                    if w != x { ax_in_segment(w, x); }
+                    lemma_anc_eq_trans(t, w, x);
+                }
+                assert(anc_eq(t, e));
+            }
+        }
+    }
+}
+/// with a sound queue holding a witness for every reachable target, "from the seeds" is "in the graph"
+proof fn lemma_seeds_graph(q: Map<SegmentIndex, MaxCut>, mc: MaxCut, t: Location)
+    requires qg_sound(q, mc), in_graph(t) ==> q_witness(q, t),
+    ensures from_seeds(t, q) <==> in_graph(t),
+{
+    if from_seeds(t, q) {
+        let s = choose|s: SegmentIndex| #[trigger] q.contains_key(s) && anc_eq(t, Location { max_cut: q[s], segment: s });
+        let e = Location { max_cut: q[s], segment: s };
+        let i = choose|i: int| 0 <= i < storage_heads().len() && anc_eq(e, #[trigger] storage_heads()[i]);
+        lemma_anc_eq_trans(t, e, storage_heads()[i]);
+    }
+    if in_graph(t) {
+        let s = choose|s: SegmentIndex| #[trigger] q.contains_key(s) && anc_eq(t, Location { max_cut: q[s], segment: s });
+        assert(q.contains_key(s) && anc_eq(t, Location { max_cut: q[s], segment: s }));
+    }
+}
 '''
 
 IS_ANC = FnSpec(
-    FILE, 'is_ancestor', r'pub trait Storage\b',
+    FILE, 'is_ancestor', r'pub trait Storage\b', attrs='#[verifier::spinoff_prover]',
     contract="""
         requires valid(search_location), valid(start_location),
         ensures r is Ok, r->Ok_0 == anc(search_location, start_location),
@@ -375,10 +548,217 @@ IS_ANC = FnSpec(
                     lemma_anc_eq_trans(skip, loc, start_location);
                     lemma_push(q0, skip, search_location, start_location, loc);
                 }"""),
-        ('after', 'queue.push(skip)?;', """proof { qv = queue@; }"""),
+        ('after', 'queue.push(skip)?;', """proof {
+                    qv = queue@;
+                    assert(queue@ == pushed(q0, skip));
+                    if wit_is_loc { assert(anc(search_location, first_loc(loc.segment))); assert(anc_eq(search_location, skip)); assert(q_witness(queue@, search_location)); }
+                    if anc(search_location, start_location) && !wit_is_loc { assert(q_witness(q0, search_location)); assert(q_witness(queue@, search_location)); }
+                }"""),
         ('after', 'queue.push(prior)?;', """proof { qv = queue@; }"""),
+    ])
+
+SEARCH = FnSpec(
+    FILE, 'search_queued', attrs='#[verifier::spinoff_prover]',
+    sig_rewrites=[('fn search_queued<S: Storage + ?Sized>(\n    storage: &S,', 'fn search_queued(\n    storage: &Storage,', 1, 'R6 (generic Storage -> the abstract Storage)')],
+    contract="""
+    requires
+        // every seed is a command of the graph at or above the target max cut
+        forall|s: SegmentIndex| #[trigger] old(queue)@.contains_key(s) ==> valid(Location { max_cut: old(queue)@[s], segment: s }) && old(queue)@[s] >= address.max_cut,
+    ensures
+        r is Ok,
+        // found  <=>  the storage holds the command and it is an ancestor-or-self of a seed; the result is its location
+        r->Ok_0 is Some <==> (target(address) is Some && from_seeds(target(address)->Some_0, old(queue)@)),
+        r->Ok_0 is Some ==> r->Ok_0 == target(address),
+""",
+    rewrites=[
+        ("""debug_assert!(
+            loc.max_cut >= address.max_cut,
+            "Invariant: we only enqueue locations with at least the target max cut"
+        );""", 'assert(loc.max_cut >= address.max_cut);', 1, 'R5'),
+        ("""Some(&skip) = segment
+            .skip_list()
+            .iter()
+            .find(|skip| skip.max_cut >= address.max_cut)""", 'Some(skip) = find_skip(segment.skip_list(), address.max_cut)', 1, "R2'"),
+        ('for prior in segment.prior() {', """let ps = prior_locs(segment.prior());
+            for pi in 0..ps.len()
+                invariant
+                    ps@ == seg_priors(loc.segment), segment.idx == loc.segment, segment.wf(), valid(loc),
+                    from_seeds(loc, seeds), !first_round, bound == loc, qv == queue@,
+                    have ==> valid(t) && t.max_cut == address.max_cut && t.segment != loc.segment && target(address) == Some(t),
+                    !have ==> target(address) is None,
+                    qs_sound(queue@, address.max_cut, seeds),
+                    q_below(queue@, loc),
+                    (have && from_seeds(t, seeds)) ==> (q_witness(queue@, t)
+                        || (exists|j: int| pi <= j < ps@.len() && anc_eq(t, #[trigger] ps@[j]))),
+            {
+                let prior = ps[pi];
+                let ghost q0 = queue@;
+                proof {
+                    ax_priors(loc.segment, pi as int);
+                    lemma_below_loc(prior, loc);
+                    lemma_from_seeds_down(prior, loc, seeds);
+                    if have && anc_eq(t, prior) && t != prior { ax_anc(t, prior); }
+                    if prior.max_cut >= address.max_cut {
+                        lemma_push_s(q0, prior, t, address.max_cut, seeds, loc);
+                    }
+                }""", 1, 'R14'),
+    ],
+    inserts=[
+        ('before', 'while let Some(loc) = queue.pop()?', """let ghost seeds = queue@;
+    let ghost have = target(address) is Some;
+    let ghost t = if have { target(address)->Some_0 } else { Location { max_cut: 0, segment: 0 } };
+    let ghost mut bound = Location { max_cut: u64::MAX, segment: u64::MAX };
+    let ghost mut first_round = true;
+    let ghost mut qv = queue@;
+    proof {
+        ax_target(address);
+        assert forall|s: SegmentIndex| #[trigger] seeds.contains_key(s) implies from_seeds(Location { max_cut: seeds[s], segment: s }, seeds) by {
+            assert(anc_eq(Location { max_cut: seeds[s], segment: s }, Location { max_cut: seeds[s], segment: s }));
+        }
+    }"""),
+        ('after', 'while let Some(loc) = queue.pop()?', """
+        invariant
+            qv == queue@,
+            have ==> valid(t) && t.max_cut == address.max_cut && target(address) == Some(t),
+            !have ==> target(address) is None,
+            qs_sound(queue@, address.max_cut, seeds),
+            (have && from_seeds(t, seeds)) ==> q_witness(queue@, t),
+            first_round ==> queue@ == seeds,
+            seeds == old(queue)@,
+            !first_round ==> q_below(queue@, bound),
+        ensures
+            !(have && from_seeds(t, seeds)),
+        decreases (if first_round { 1int } else { 0int }), bound.max_cut, bound.segment,"""),
+        ('before', 'let segment = storage.get_segment(loc)?;', """let ghost wit_is_loc = have && from_seeds(t, seeds) && !q_witness(queue@, t);
+        proof {
+            assert(qv.contains_key(loc.segment) && qv[loc.segment] == loc.max_cut && queue@ == qv.remove(loc.segment));
+            assert(valid(loc) && from_seeds(loc, seeds) && loc.max_cut >= address.max_cut);
+            assert(q_below(queue@, loc));
+            if !first_round { assert(loc_lt(loc, bound)); }
+            if wit_is_loc {
+                let s0 = choose|s: SegmentIndex| #[trigger] qv.contains_key(s) && anc_eq(t, Location { max_cut: qv[s], segment: s });
+                if s0 != loc.segment { assert(queue@.contains_key(s0) && queue@[s0] == qv[s0]); }
+                assert(anc_eq(t, loc));
+            }
+            first_round = false;
+            bound = loc;
+            qv = queue@;
+        }"""),
+        ('before', 'return Ok(Some(found));', """proof {
+                // found in loc's segment at the address' max cut (<= loc's): an ancestor-or-self of loc, hence of a seed
+                assert(found == t);
+                ax_in_segment(t, loc);
+                lemma_from_seeds_down(t, loc, seeds);
+            }"""),
+        ('before', 'if let Some(skip) = find_skip(segment.skip_list(), address.max_cut)', """proof {
+            if have { assert(t.segment != loc.segment); }
+            lemma_first_anc_eq(loc);
+            if wit_is_loc {
+                ax_cross_segment(t, loc);
+                ax_cross_segment(t, first_loc(loc.segment));
+            }
+        }"""),
+        ('before', 'queue.push(skip)?;', """let ghost q0 = queue@;
+            proof {
+                let i = choose|i: int| 0 <= i < segment.skips@.len() && segment.skips@[i] == skip && segment.skips@[i].max_cut >= address.max_cut;
+                ax_skip(loc.segment, i, t);
+                lemma_below_loc(skip, loc);
+                lemma_from_seeds_down(skip, loc, seeds);
+                lemma_push_s(q0, skip, t, address.max_cut, seeds, loc);
+            }"""),
+        ('after', 'queue.push(skip)?;', """proof {
+                qv = queue@;
+                assert(queue@ == pushed(q0, skip));
+                if wit_is_loc { assert(anc(t, first_loc(loc.segment))); assert(anc_eq(t, skip)); assert(q_witness(queue@, t)); }
+                if have && from_seeds(t, seeds) && !wit_is_loc { assert(q_witness(q0, t)); assert(q_witness(queue@, t)); }
+            }"""),
+        ('after', 'queue.push(prior)?;', """proof { qv = queue@; }"""),
+    ])
+
+LOCATION = FnSpec(FILE, 'location', r'impl LocatedAddress\b', contract="""
+        ensures r == head_loc(self),
+""")
+
+GET_LOC_FROM = FnSpec(
+    FILE, 'get_location_from', r'pub trait Storage\b',
+    contract="""
+        requires valid(start),
+        ensures
+            r is Ok,
+            // found <=> the storage holds the command and it is `start` or one of its ancestors
+            r->Ok_0 is Some <==> (target(address) is Some && anc_eq(target(address)->Some_0, start)),
+            r->Ok_0 is Some ==> r->Ok_0 == target(address),
+""",
+    inserts=[
+        ('before', 'return Ok(None);', """proof {
+                ax_target(address);
+                if target(address) is Some && anc_eq(target(address)->Some_0, start) && target(address)->Some_0 != start {
+                    ax_anc(target(address)->Some_0, start);
+                }
+            }"""),
+        ('after', 'queue.push(start)?;', """proof {
+            let q = queue@;
+            assert(q.contains_key(start.segment) && q[start.segment] == start.max_cut);
+            assert forall|s: SegmentIndex| #[trigger] q.contains_key(s) implies s == start.segment by {}
+            if target(address) is Some {
+                let t = target(address)->Some_0;
+                if anc_eq(t, start) { assert(anc_eq(t, Location { max_cut: q[start.segment], segment: start.segment })); }
+                if from_seeds(t, q) {
+                    let s = choose|s: SegmentIndex| #[trigger] q.contains_key(s) && anc_eq(t, Location { max_cut: q[s], segment: s });
+                    assert(s == start.segment);
+                }
+            }
+        }"""),
+    ])
+
+GET_LOC = FnSpec(
+    FILE, 'get_location', r'pub trait Storage\b', attrs='#[verifier::spinoff_prover]',
+    contract="""
+        ensures
+            r is Ok,
+            // C11: found exactly when the command is in the committed graph; the result is its location
+            r->Ok_0 is Some <==> (target(address) is Some && in_graph(target(address)->Some_0)),
+            r->Ok_0 is Some ==> r->Ok_0 == target(address),
+""",
+    rewrites=[
+        ('for head in self.get_heads()?.iter() {', """let hs = head_vec(self.get_heads()?);
+        for hi in 0..hs.len()
+            invariant
+                hs@.len() == storage_heads().len(),
+                forall|i: int| 0 <= i < storage_heads().len() ==> head_loc(#[trigger] hs@[i]) == storage_heads()[i],
+                qg_sound(queue@, address.max_cut),
+                // every head scanned so far that can reach a location at the target's max cut has a witness queued
+                forall|t: Location, j: int| 0 <= j < hi && t.max_cut == address.max_cut && anc_eq(t, #[trigger] storage_heads()[j])
+                    ==> #[trigger] q_witness(queue@, t),
+        {
+            let head = hs[hi];
+            let ghost q0 = queue@;
+            proof {
+                ax_heads(hi as int);
+                assert(head_loc(head) == storage_heads()[hi as int]);
+                assert(anc_eq(head_loc(head), storage_heads()[hi as int]));
+                if head.max_cut >= address.max_cut { lemma_push_g(q0, head_loc(head), address.max_cut); }
+                else {
+                    assert forall|t: Location| t.max_cut == address.max_cut implies !anc_eq(t, storage_heads()[hi as int]) by {
+                        if anc_eq(t, storage_heads()[hi as int]) && t != storage_heads()[hi as int] { ax_anc(t, storage_heads()[hi as int]); }
+                    }
+                }
+            }""", 1, 'R14'),
+    ],
+    inserts=[
+        ('before', 'search_queued(self, address, queue)', """proof {
+            ax_target(address);
+            if target(address) is Some {
+                let t = target(address)->Some_0;
+                if in_graph(t) {
+                    let i = choose|i: int| 0 <= i < storage_heads().len() && anc_eq(t, #[trigger] storage_heads()[i]);
+                    assert(q_witness(queue@, t));
+                }
+                lemma_seeds_graph(queue@, address.max_cut, t);
+            }
+        }"""),
     ])
 
 
 def build():
-    return build_unit(PRELUDE, [('impl Storage', [IS_ANC])])
+    return build_unit(PRELUDE, [('impl LocatedAddress', [LOCATION]), (None, [SEARCH]), ('impl Storage', [IS_ANC, GET_LOC, GET_LOC_FROM])])
